@@ -58,17 +58,26 @@ def do_stream(n, payload, typ, tail, cut):
     return ok and v is None
 
 
-for n in (0, 1, 2, 3, 5, 10):
+TYPES = {'bytes': 44, 'text': 36, 'int': 35, 'null': 126}
+for n in (0, 1, 2, 3, 5):
     ps = ['p%d' % i for i in range(n)]
-    define(globals(), 'C20', 'stream_size%d' % n, ps + ['typ', 't0', 't1', 'cut'],
-           "return do_stream(%d, [%s], typ, [t0, t1], cut)" % (n, ", ".join(ps)),
-           [" and ".join('0 <= %s <= 255' % p for p in ps + ['typ', 't0', 't1']), '0 <= cut'],
-           tier='quick' if n in (0, 1, 3) else 'thorough', timeout=1800, path_timeout=120, drives=DRIVES,
-           symbolic=['p*: %d payload bytes 0..255 (so colons, commas, digits and type tags occur inside the payload)' % n,
-                     'typ: the type byte (any byte: the 4 supported types, the 4 unsupported and invalid ones)', 't0,t1: following data', 'cut: two-way chunking position'],
-           bounds='streaming parser on SIZE=%d ":" DATA TYPE + 2 following bytes, every two-way chunking: supported types extract exactly the payload '
-                  '(bytes / utf-8 text (ascii) / integer / null), stop exactly at the end of the message and leave the following data; anything '
-                  'else is never reported as a complete message' % n, outside='payloads longer than 10 bytes; float/bool/list/dict types (not supported by the streaming parser)')
+    for tname, tcode in list(TYPES.items()) + [('other', None)]:
+        params = ps + (['typ'] if tcode is None else []) + ['t0', 'cut']
+        pre = [" and ".join('0 <= %s <= 255' % p for p in ps + ['t0']), '0 <= cut']
+        if tcode is None:
+            pre.append('0 <= typ <= 255 and typ not in (44, 36, 35, 126)')
+        if tname == 'text':
+            pre.append(" and ".join('%s < 128' % p for p in ps) or 'True')
+        define(globals(), 'C20', 'stream_size%d_%s' % (n, tname), params,
+               "return do_stream(%d, [%s], %s, [t0], cut)" % (n, ", ".join(ps), 'typ' if tcode is None else tcode), pre,
+               tier='quick' if (n, tname) in ((0, 'null'), (0, 'bytes'), (1, 'int'), (2, 'bytes'), (2, 'other'), (3, 'text'), (3, 'int'), (1, 'null')) else 'thorough',
+               timeout=1800, path_timeout=120, drives=DRIVES,
+               symbolic=['p*: %d payload bytes 0..255 (colons, commas, digits and type tags occur inside the payload)' % n,
+                         'typ' if tcode is None else 'type %r' % chr(tcode), 't0: following data', 'cut: two-way chunking position'],
+               bounds='streaming parser on SIZE=%d ":" DATA TYPE(%s) + 1 following byte, every two-way chunking: supported types extract exactly the '
+                      'payload (bytes / ascii text / integer / null), stop exactly at the end of the message and leave the following data; an '
+                      'unsupported/invalid type or mismatching content is never reported as a complete message' % (n, tname),
+               outside='payloads longer than 5 bytes; non-ascii text; float/bool/list/dict types (not supported by the streaming parser)')
 
 
 def do_dump_agree(bs, tail, cut):
@@ -138,7 +147,7 @@ SHAPES = {
 }
 
 
-LEAVES = [0, -7, 10, 123, True, False, None, b'', b':', b'5:x,', u'', u',', u'\xe9#', b'~]']
+LEAVES = [0, -7, 123, True, None, b'', b'5:x,', u'\xe9#']
 
 
 def leaf(sel):
@@ -155,7 +164,7 @@ def do_roundtrip_container(shape, s0, s1, s2):
 
 for shape in SHAPES:
     define(globals(), 'C20', 'roundtrip_%s' % shape, ['s0', 's1', 's2'], "return do_roundtrip_container(%r, s0, s1, s2)" % shape,
-           ['0 <= s0 <= 13 and 0 <= s1 <= 13 and 0 <= s2 <= 13'],
+           ['0 <= s0 <= 7 and 0 <= s1 <= 7 and 0 <= s2 <= 7'],
            tier='quick' if shape in ('list2', 'list_in_dict') else 'thorough', timeout=2400, path_timeout=60,
            drives=['cpppo.server.tnetstrings.dump', 'cpppo.server.tnetstrings.dump_list', 'cpppo.server.tnetstrings.dump_dict', 'cpppo.server.tnetstrings.parse',
                    'cpppo.server.tnetstrings.parse_list', 'cpppo.server.tnetstrings.parse_dict', 'cpppo.server.tnetstrings.parse_payload'],
